@@ -46,6 +46,10 @@ const COSMETIC: &[&str] = &[
     "track.io##.t:style(color: red !important)",
     "##div[data-ad]",
     "b.co.uk##.bb:has(> .x)",
+    // generichide exceptions scoped to part of a site (the answer depends on the page URL, not
+    // just on its host)
+    "@@||ads.net/embed/$generichide",
+    "@@||example.org/player.html$generichide",
 ];
 
 fn regex_twins(r: &mut Rng) -> Vec<String> {
@@ -188,7 +192,8 @@ fn engine_histories(ctx: &mut Ctx) {
             let mut history: Vec<String> = vec![];
             let mut h = Hist { evals: 0, nt: false, viol: vec![], sample: json!(null), state_changes: 0, regex_events: 0, stale: 0, reuse: 0, ties: 0 };
             let reqs: Vec<gen::Req> = (0..4).map(|_| gen_request(&mut r, &rules)).collect();
-            let pages = ["https://ads.net/", "https://sub.ads.net/p", "https://www.example.org/", "https://track.io/x", "https://x.b.co.uk/"];
+            let pages = ["https://ads.net/", "https://sub.ads.net/p", "https://www.example.org/", "https://track.io/x", "https://x.b.co.uk/",
+                "https://ads.net/embed/x", "https://ads.net/other", "https://example.org/player.html", "https://example.org/index.html"];
             let mut queries_after_change = 0u64;
             for _ in 0..nops {
                 match r.below(21) {
